@@ -2,6 +2,7 @@ package stream
 
 import (
 	"fmt"
+	"strconv"
 	"strings"
 
 	"storj.io/drpc/drpcwire"
@@ -313,19 +314,19 @@ func oracles(o *corr.Out, sc *scenario, w *World) {
 				p := strings.SplitN(kv, "=", 2)
 				if len(p) == 2 && strings.HasPrefix(p[1], "data:") {
 					got = append(got, p[1][5:])
+				} else if len(p) == 2 && p[1] == "unmarshal" {
+					got = append(got, "?") // a receive whose Unmarshal failed has consumed a message all the same
 				}
 			}
 		}
-		j, bad := 0, ""
-		for _, g := range got {
-			for j < len(payloads) && payloads[j] != g {
-				j++
-			}
-			if j == len(payloads) {
-				bad = fmt.Sprintf("MsgRecv returned %s, which is not the next delivered payload (delivered: %v, received: %v)", g, payloads, got)
+		// successful receives return the delivered payloads in order and WITHOUT GAPS: a delivered
+		// message is lost only by termination, after which no receive succeeds
+		bad := ""
+		for k, g := range got {
+			if k >= len(payloads) || (g != "?" && payloads[k] != g) {
+				bad = fmt.Sprintf("receive %d returned %s, which is not delivered payload %d (delivered: %v, received: %v)", k+1, g, k+1, payloads, got)
 				break
 			}
-			j++
 		}
 		if bad != "" {
 			o.Oracle("C01:recv-data-intact", sc.request(), bad)
@@ -530,5 +531,40 @@ func Run(o *corr.Out) {
 			return ""
 		})
 		emit(sc, w, "park")
+	}
+	// (D) the lent buffer: a message is being unmarshalled (MsgRecv holds the reader's buffer) when the
+	// stream is terminated; if that lets the reader's HandlePacket return, the reader reuses its
+	// buffer for the next packet (as drpcmanager's reader does) before the unmarshal finishes.
+	for _, term := range []string{"cancel:1", "cancel:2", "close", "senderr:00000000000000076572", "sendcancel:1"} {
+		for _, n := range []int{1, 3, 9, 20} {
+			for _, c := range cfgs[:2] {
+				sc := &scenario{split: c.split, manual: c.manual, wsize: c.wsize}
+				a, b := make([]byte, n), make([]byte, n)
+				for i := range a {
+					a[i], b[i] = byte(0xa0+i%16), byte(0xb0+i%16)
+				}
+				script := []string{"i!1!recvp", "i!2!pkt:2:0:1:" + corr.Hex(a), "i!3!" + term, "?i!4!pkt:2:0:1:" + corr.Hex(b), "u!1", "i!5!recv"}
+				w := runScenario(sc, func(w *World, step int) string {
+					for step < len(script) {
+						act := script[step]
+						if strings.HasPrefix(act, "?") {
+							// only when the reader is free again (HandlePacket of the first message has returned)
+							pc := w.pendingClasses()
+							if pc["pktmsg"]+pc["pktctl"] >= 1 {
+								return "auto!1" // a no-op step keeps the script position aligned
+							}
+							act = act[1:]
+						}
+						if f := strings.Split(act, "!"); f[0] == "i" {
+							tid, _ := strconv.Atoi(f[1])
+							w.remember(tid, f[2])
+						}
+						return act
+					}
+					return ""
+				})
+				emit(sc, w, "lend")
+			}
+		}
 	}
 }
